@@ -152,10 +152,14 @@ class OpenmlSource(Source[Iterable[Tuple[Union[MutableSequence, MutableMapping],
             KB = 1024
             MB = 1024*KB
             if api_key: url = f"{url}?api_key={api_key}"
-            yield from HttpSource(url, timeout=timeout, chunk_size=10*MB).read()
+            n_lines = 0
+            for line in HttpSource(url, timeout=timeout, chunk_size=10*MB).read():
+                n_lines += 1
+                yield line
 
         except TimeoutError:
-            if tries == 3: raise
+            #lines that were handed out can't be taken back (they may be in a cache file already) so we only start over from the very start
+            if tries == 3 or n_lines: raise
             yield from self._http_request(url, timeout=5**(tries+1), tries=tries+1)
 
         except request.HTTPError as e:
